@@ -389,6 +389,7 @@ config random_config(verif::splitmix &rng, bool thorough)
 // ---- one schedule ---------------------------------------------------------------------------------
 std::string DISC("S0XXXSX");
 bool SEAL_ATOMIC(false);
+long maybe_left(0);      // acquisitions of a lock the translator could not identify ('U'): tried and timed, while this lasts
 unsigned long n_overlaps(0), n_bad(0);
 
 enum class tri {no, yes, maybe};
@@ -461,9 +462,11 @@ public:
       if (!active[t] && pc[t] >= progs[t].size()) continue;
       const char k(next_acquire(t));
       if (k == 0) { cs.push_back({int(t), false}); continue; }
+      if (pending >= 0 && k != 'N') continue;     // no acquisition while a thread is queued on the lock: what the
+                                                  // implementation then does (reader or writer preference) is not specified
       const tri e(enabled(k, int(t)));
       if (e == tri::yes) cs.push_back({int(t), false});
-      else if (pending < 0 && (*probes_left > 0 || e == tri::maybe)) cs.push_back({int(t), true});
+      else if (pending < 0 && (*probes_left > 0 || (e == tri::maybe && maybe_left > 0))) cs.push_back({int(t), true});
     }
     return cs;
   }
@@ -700,7 +703,7 @@ private:
     const tri e(enabled(next_acquire_kind(o), t));
     unsigned long seen(0);
     const bool got(advance(*ws[t], e == tri::yes ? LONG : SHORT, &o, &seen));
-    if (probe) --*probes_left;
+    if (probe) { --*probes_left; if (e == tri::maybe) --maybe_left; }
     if (got)
     {
       read_point(t);
@@ -773,7 +776,7 @@ private:
       const std::string name("wacq " + ts + " " + std::to_string(o.key) + " " + std::to_string(o.vid));
       unsigned long seen(0);
       const bool got(advance(w, e == tri::yes ? LONG : SHORT, nullptr, &seen));
-      if (probe) --*probes_left;
+      if (probe) { --*probes_left; if (e == tri::maybe) --maybe_left; }
       if (got) { read_point(t); emit(name + " = ok" + overlap_note(t, 'X', o, pt[t])); }
       else if (e == tri::yes)
       {
@@ -907,6 +910,7 @@ int main(int argc, char **argv)
   SEAL_ATOMIC = argc > 7 && std::string(argv[7]) == "1";
   const unsigned pb(argc > 8 ? std::stoul(argv[8]) : 2);
   const bool thorough(dfs_cap > 1000);
+  maybe_left = 3 * probes;
   verif::splitmix rng(seed);
   vita::verif_hook::sched_callback = park;
 
